@@ -288,3 +288,14 @@ func ReplayMain(harnesses map[string]func()) error {
 	}
 	return os.WriteFile(out, ob, 0644)
 }
+
+// Seed returns VERIF_SEED (concrete in the engine), for rotating subsets.
+func Seed() int { return seed }
+
+var seed int
+
+func init() {
+	if s := os.Getenv("VERIF_SEED"); s != "" {
+		seed, _ = strconv.Atoi(s)
+	}
+}
